@@ -197,4 +197,14 @@ def run(chk, prog):
     final = [t for c, t in arms if is_t(t, "tuple") and len(t[1]) == 2 and t[1][1] == C(None)]
     okf = len(final) == 1 and is_call(final[0][1][0], "tree_unflatten") and is_call(final[0][1][0][2][1], "safe_map") and final[0][1][0][2][1][2][1] == ("attr", P("jaxpr"), "outvars")
     chk.require(okf, "INTERP-SKELETON", "eval_jaxpr_iterate_cps/outputs", "final value read from jaxpr.outvars; no further frame", derived=show(final[0])[:200] if final else "none", expected="(tree_unflatten(out_tree(), safe_map(env.read, jaxpr.outvars)), None)", where=where)
+    ttf = CI.methods["time_travel"]
+    inn = prog.nested(ttf, "_inner")
+    evi = Evaluator(prog)
+    evi.opaque_methods.add("eval_jaxpr_time_travel")
+    ri_ = evi.eval_fn(inn, CI.module, CI, env0={"f": P("f")})
+    t_ = ri_.ret
+    st_ = ("call", ("call", G("genjax._src.core.compiler.staging.stage"), (P("f"),), ()), (("star", P("args")),), ())
+    cj_ = mk_proj(st_, 0)
+    oki_ = is_call(t_, "eval_jaxpr_time_travel") and t_[2] == (("attr", cj_, "jaxpr"), ("attr", cj_, "literals"), mk_proj(mk_proj(st_, 1), 0), mk_proj(mk_proj(st_, 1), 2))
+    chk.require(oki_, "INTERP-SKELETON", "time_travel._inner", "stage, then interpret the staged jaxpr with its literals, the flat arguments and out_tree", derived=show(t_)[:240], expected="eval_jaxpr_time_travel(jaxpr, literals, flat_args, out_tree)", where=f"{CI.module.rel}:{inn.lineno}")
     chk.explanation = "pointer bounds of the debugger by finite evaluation, frame recording order, continuation structure of the CPS interpreter"
